@@ -394,7 +394,7 @@ pub fn run(ctx: &Ctx, evidence: Option<&PathBuf>) -> i32 {
     ctx.run_cases("shutdown-points", ctx.size(60, 6_000), |c| shutdown_points(c, scale));
     let (runs, rounds) = match scale {
         Scale::Full => (ctx.size(16, 400), 150),
-        Scale::San => (4, 100),
+        Scale::San => (8, 200),
         Scale::Miri => (1, 3),
     };
     if scale == Scale::Full {
